@@ -50,6 +50,44 @@ def ValidFrom : St → List Op → Prop
   | _, [] => True
   | s, op :: rest => OpOk s op ∧ ValidFrom (applyOp s op) rest
 
+/-- The same without the bound `first ≤ last + 1`: etcd/raft also hands over a batch that starts right
+after an installed snapshot whose index lies beyond the stored log (the follower catch-up flow). -/
+def ValidBatchG (items : List Item) : Prop :=
+  items ≠ [] ∧ (∀ it ∈ items, it.wf) ∧ ∃ f, 1 ≤ f ∧ Contig f items
+
+theorem ValidBatch.toG {last : Nat} {items : List Item} (h : ValidBatch last items) : ValidBatchG items := by
+  obtain ⟨a, b, f, c, _, d⟩ := h
+  exact ⟨a, b, f, c, d⟩
+
+def OpOkG (op : Op) : Prop :=
+  match op.items with
+  | some items => ValidBatchG items
+  | none => True
+
+def ValidFromG : List Op → Prop
+  | [] => True
+  | op :: rest => OpOkG op ∧ ValidFromG rest
+
+theorem OpOk.toG {s : St} {op : Op} (h : OpOk s op) : OpOkG op := by
+  unfold OpOk at h
+  unfold OpOkG
+  cases hi : op.items with
+  | none => trivial
+  | some items => rw [hi] at h; exact ValidBatch.toG h
+
+theorem ValidFrom.toG : ∀ {s : St} {ops : List Op}, ValidFrom s ops → ValidFromG ops
+  | _, [], _ => trivial
+  | _, _ :: _, h => ⟨OpOk.toG h.1, ValidFrom.toG h.2⟩
+
+theorem validFromG_snoc (ops : List Op) (op : Op) : ValidFromG (ops ++ [op]) ↔ ValidFromG ops ∧ OpOkG op := by
+  induction ops with
+  | nil => simp [ValidFromG]
+  | cons a l ih =>
+    simp only [List.cons_append, ValidFromG, ih]
+    constructor
+    · rintro ⟨h1, h2, h3⟩; exact ⟨⟨h1, h2⟩, h3⟩
+    · rintro ⟨⟨h1, h2⟩, h3⟩; exact ⟨h1, h2, h3⟩
+
 /-- One step of the reference view "item most recently stored at index j": a batch overrides
 the indices it contains, `ClearWAL`/`ResetWAL` forget everything, other operations change nothing. -/
 def specStep (acc : Nat → Option Item) (op : Op) : Nat → Option Item :=
@@ -207,18 +245,18 @@ theorem putItems_ok {s : St} {items : List Item} (h : ∀ it ∈ items, it.wf) :
       · have : ¬ j = a.e.index := fun h => hj h.symm
         simp [hj, this]
 
-/-- `WriteRaftEntry` on a valid batch: it succeeds, the last index is the index of the last
+/-- (General form, any first index ≥ 1.) `WriteRaftEntry` on a valid batch: it succeeds, the last index is the index of the last
 entry, an index holds the batch's entry if the batch contains it, nothing if it lies in the
 truncated range, and its old content otherwise. -/
-theorem writeRaftEntry_valid {s : St} {items : List Item} (hv : ValidBatch (lastIdx s) items) :
-    ∃ s' f, writeRaftEntry s items = (s', .ok) ∧ 1 ≤ f ∧ f ≤ lastIdx s + 1 ∧ Contig f items ∧
+theorem writeRaftEntry_validG {s : St} {items : List Item} (hv : ValidBatchG items) :
+    ∃ s' f, writeRaftEntry s items = (s', .ok) ∧ 1 ≤ f ∧ Contig f items ∧
       lastIdx s' = f + items.length - 1 ∧
       (∀ j, s'.ents j = match written items j with
                         | some it => some it.e
                         | none => if f ≤ j ∧ j ≤ lastIdx s then none else s.ents j) ∧
       s'.hard = s.hard ∧ s'.snap = s.snap ∧ s'.ident = s.ident ∧ s'.best = s.best ∧
       s'.latestNo = s.latestNo ∧ s'.hashByNo = s.hashByNo := by
-  obtain ⟨hne, hwf, f, hf1, hf2, hc⟩ := hv
+  obtain ⟨hne, hwf, f, hf1, hc⟩ := hv
   cases items with
   | nil => exact absurd rfl hne
   | cons it0 rest =>
@@ -236,7 +274,7 @@ theorem writeRaftEntry_valid {s : St} {items : List Item} (hv : ValidBatch (last
       · next hgt =>
         have : ¬ (f ≤ j ∧ j ≤ lastIdx s) := by omega
         simp [this]
-    refine ⟨{ s2 with lastKey := some (batchLast (it0 :: rest)) }, f, ?_, hf1, hf2, hc, ?_, ?_, ?_⟩
+    refine ⟨{ s2 with lastKey := some (batchLast (it0 :: rest)) }, f, ?_, hf1, hc, ?_, ?_, ?_⟩
     · show writeRaftEntry s (it0 :: rest) = _
       simp only [writeRaftEntry]
       show (match putItems s1 (it0 :: rest) with
@@ -253,6 +291,24 @@ theorem writeRaftEntry_valid {s : St} {items : List Item} (hv : ValidBatch (last
     · refine ⟨by show s2.hard = _; rw [r3, hs1.2.1], by show s2.snap = _; rw [r4, hs1.2.2.1],
         by show s2.ident = _; rw [r5, hs1.2.2.2.1], by show s2.best = _; rw [r6, hs1.2.2.2.2.1],
         by show s2.latestNo = _; rw [r7, hs1.2.2.2.2.2.1], by show s2.hashByNo = _; rw [r8, hs1.2.2.2.2.2.2]⟩
+
+/-- `WriteRaftEntry` on a batch valid w.r.t. the current last index. -/
+theorem writeRaftEntry_valid {s : St} {items : List Item} (hv : ValidBatch (lastIdx s) items) :
+    ∃ s' f, writeRaftEntry s items = (s', .ok) ∧ 1 ≤ f ∧ f ≤ lastIdx s + 1 ∧ Contig f items ∧
+      lastIdx s' = f + items.length - 1 ∧
+      (∀ j, s'.ents j = match written items j with
+                        | some it => some it.e
+                        | none => if f ≤ j ∧ j ≤ lastIdx s then none else s.ents j) ∧
+      s'.hard = s.hard ∧ s'.snap = s.snap ∧ s'.ident = s.ident ∧ s'.best = s.best ∧
+      s'.latestNo = s.latestNo ∧ s'.hashByNo = s.hashByNo := by
+  obtain ⟨s', f, hw, hf1, hc, r⟩ := writeRaftEntry_validG (s := s) hv.toG
+  obtain ⟨hne, _, f', _, hf2', hc'⟩ := hv
+  have : f' = f := by
+    cases items with
+    | nil => exact absurd rfl hne
+    | cons a t => rw [← hc.1, ← hc'.1]
+  subst this
+  exact ⟨s', f', hw, hf1, hf2', hc, r⟩
 
 /-! ## The log invariant -/
 
@@ -395,6 +451,7 @@ theorem logInv_step {s : St} {spec : Nat → Option Item} (op : Op) (hok : OpOk 
       · cases hr
   | clear => exact logInv_clear h
   | best b => exact logInv_same (s := s) rfl rfl h
+  | ccprog id st => exact logInv_same (s := s) rfl rfl h
   | reset hs =>
     cases hs with
     | none => exact h
@@ -560,12 +617,12 @@ theorem blkInv_grow {s s' : St} {bs new : List Block}
 theorem blkInv_same {s s' : St} {bs : List Block} (he : s'.blocks = s.blocks) (h : BlkInv s bs) : BlkInv s' (bs ++ []) := by
   simpa [BlkInv, he] using h
 
-theorem blkInv_step {s : St} {bs : List Block} (op : Op) (hok : OpOk s op) (h : BlkInv s bs) :
+theorem blkInv_step {s : St} {bs : List Block} (op : Op) (hok : OpOkG op) (h : BlkInv s bs) :
     BlkInv (applyOp s op) (bs ++ op.blocks) := by
   cases op with
   | write items =>
-    have hv : ValidBatch (lastIdx s) items := by simpa [OpOk, Op.items] using hok
-    obtain ⟨s', f, hw, -⟩ := writeRaftEntry_valid hv
+    have hv : ValidBatchG items := by simpa [OpOkG, Op.items] using hok
+    obtain ⟨s', f, hw, -⟩ := writeRaftEntry_validG (s := s) hv
     obtain ⟨i1, i2, i3⟩ := writeRaftEntry_blocks hw
     have : applyOp s (.write items) = s' := by simp [applyOp, step, hw]
     rw [this]
@@ -579,9 +636,9 @@ theorem blkInv_step {s : St} {bs : List Block} (op : Op) (hok : OpOk s op) (h : 
       simp only [applyOp, step, saveEntry, he, if_true]
       by_cases hz : hs = ⟨0, 0, 0⟩ <;> simp [hz]
     | false =>
-      have hvb : ValidBatch (lastIdx s) (ents.map convertFromRaft) := by
-        simpa [OpOk, Op.items, he] using hok
-      obtain ⟨s', f, hw, -⟩ := writeRaftEntry_valid hvb
+      have hvb : ValidBatchG (ents.map convertFromRaft) := by
+        simpa [OpOkG, Op.items, he] using hok
+      obtain ⟨s', f, hw, -⟩ := writeRaftEntry_validG (s := s) hvb
       obtain ⟨i1, i2, i3⟩ := writeRaftEntry_blocks hw
       have hb : (Op.save hs ents).blocks = (ents.map convertFromRaft).filterMap Item.stored := by
         simp [Op.blocks, Op.items, he]
@@ -619,6 +676,7 @@ theorem blkInv_step {s : St} {bs : List Block} (op : Op) (hok : OpOk s op) (h : 
       split at hh'
       · next heq => cases hh'; right; exact ⟨heq.symm, by simp⟩
       · left; exact hh'
+  | ccprog id st => exact blkInv_same (s := s) rfl h
   | reset hs =>
     refine blkInv_same ?_ h
     cases hs with
@@ -631,12 +689,12 @@ theorem blkInv_step {s : St} {bs : List Block} (op : Op) (hok : OpOk s op) (h : 
 theorem blocksOf_snoc (ops : List Op) (op : Op) : blocksOf (ops ++ [op]) = blocksOf ops ++ op.blocks := by
   simp [blocksOf, List.flatMap_append]
 
-theorem blkInv_run (ops : List Op) : ValidFrom empty ops → BlkInv (run empty ops) (blocksOf ops) := by
+theorem blkInv_run (ops : List Op) : ValidFromG ops → BlkInv (run empty ops) (blocksOf ops) := by
   induction ops using snoc_induction with
   | nil => intro _; exact ⟨fun b hb => by simp [blocksOf] at hb, fun h b hb => by simp [run, empty] at hb⟩
   | snoc l a ih =>
     intro hv
-    obtain ⟨hv1, hv2⟩ := (validFrom_snoc empty l a).mp hv
+    obtain ⟨hv1, hv2⟩ := (validFromG_snoc l a).mp hv
     rw [run_snoc, blocksOf_snoc]
     exact blkInv_step a hv2 (ih hv1)
 
@@ -667,6 +725,7 @@ theorem mostRecent_stored (ops : List Op) (j : Nat) (it : Item) (b : Block)
         | ident _ => left; simp [specStep, Op.items]
         | restart => left; simp [specStep, Op.items]
         | best _ => left; simp [specStep, Op.items]
+        | ccprog _ _ => left; simp [specStep, Op.items]
       rcases this with h' | h'
       · rw [h'] at h; exact List.mem_append_left _ (ih it h ht hb)
       · rw [h'] at h; cases h
@@ -715,6 +774,7 @@ theorem mostRecent_index (ops : List Op) (j : Nat) (it : Item) (h : mostRecent o
     | ident _ => exact ih it (by simpa [specStep, Op.items] using h)
     | restart => exact ih it (by simpa [specStep, Op.items] using h)
     | best _ => exact ih it (by simpa [specStep, Op.items] using h)
+    | ccprog _ _ => exact ih it (by simpa [specStep, Op.items] using h)
 
 /-! ## The best block across restart -/
 
@@ -783,13 +843,13 @@ theorem bestInv_same {s s' : St} {bs : List Block} (h1 : s'.best = s.best) (h2 :
   unfold BestInv at *
   rw [h1, h2, h3]; exact h
 
-theorem bestInv_step {s : St} {bs : List Block} (op : Op) (hok : OpOk s op) (hb : BlkInv s bs)
+theorem bestInv_step {s : St} {bs : List Block} (op : Op) (hok : OpOkG op) (hb : BlkInv s bs)
     (hh : HashOk bs) (h : BestInv s bs) : BestInv (applyOp s op) (bs ++ op.blocks) := by
   cases op with
   | write items =>
     apply bestInv_mono
-    have hv : ValidBatch (lastIdx s) items := by simpa [OpOk, Op.items] using hok
-    obtain ⟨s', f, hw, -, -, -, -, -, -, -, -, r1, r2, r3⟩ := writeRaftEntry_valid hv
+    have hv : ValidBatchG items := by simpa [OpOkG, Op.items] using hok
+    obtain ⟨s', f, hw, -, -, -, -, -, -, -, r1, r2, r3⟩ := writeRaftEntry_validG (s := s) hv
     have : applyOp s (.write items) = s' := by simp [applyOp, step, hw]
     rw [this]
     exact bestInv_same r1 r2 r3 h
@@ -801,9 +861,9 @@ theorem bestInv_step {s : St} {bs : List Block} (op : Op) (hok : OpOk s op) (hb 
       · simp only [applyOp, step, saveEntry, he, if_true]
         by_cases hz : hs = ⟨0, 0, 0⟩ <;> simp [hz]
     | false =>
-      have hvb : ValidBatch (lastIdx s) (ents.map convertFromRaft) := by
-        simpa [OpOk, Op.items, he] using hok
-      obtain ⟨s', f, hw, -, -, -, -, -, -, -, -, r1, r2, r3⟩ := writeRaftEntry_valid hvb
+      have hvb : ValidBatchG (ents.map convertFromRaft) := by
+        simpa [OpOkG, Op.items, he] using hok
+      obtain ⟨s', f, hw, -, -, -, -, -, -, -, r1, r2, r3⟩ := writeRaftEntry_validG (s := s) hvb
       refine bestInv_same ?_ ?_ ?_ (bestInv_same r1 r2 r3 h) <;>
       · simp only [applyOp, step, saveEntry, he, hw]
         by_cases hz : hs = ⟨0, 0, 0⟩ <;> simp [hz]
@@ -819,6 +879,7 @@ theorem bestInv_step {s : St} {bs : List Block} (op : Op) (hok : OpOk s op) (hb 
     show BestInv (connectBest s b) _
     unfold BestInv connectBest
     exact ⟨b, rfl, by simp [upd], List.mem_append_right _ (by simp [Op.blocks])⟩
+  | ccprog id st => exact bestInv_mono <| bestInv_same (s := s) rfl rfl rfl h
   | reset hs =>
     apply bestInv_mono
     cases hs with
@@ -831,13 +892,13 @@ theorem hashOk_prefix {bs new : List Block} (h : HashOk (bs ++ new)) : HashOk bs
   ⟨fun b hb b' hb' => h.1 b (List.mem_append_left _ hb) b' (List.mem_append_left _ hb'),
    fun b hb => h.2 b (List.mem_append_left _ hb)⟩
 
-theorem bestInv_run (ops : List Op) : ValidFrom empty ops → HashOk (blocksOf ops) →
+theorem bestInv_run (ops : List Op) : ValidFromG ops → HashOk (blocksOf ops) →
     BestInv (run empty ops) (blocksOf ops) := by
   induction ops using snoc_induction with
   | nil => intro _ _; rfl
   | snoc l a ih =>
     intro hv hh
-    obtain ⟨hv1, hv2⟩ := (validFrom_snoc empty l a).mp hv
+    obtain ⟨hv1, hv2⟩ := (validFromG_snoc l a).mp hv
     rw [blocksOf_snoc] at hh
     rw [run_snoc, blocksOf_snoc]
     exact bestInv_step a hv2 (blkInv_run l hv1) (hashOk_prefix hh) (ih hv1 (hashOk_prefix hh))
@@ -855,11 +916,11 @@ def hardStep (acc : Option HardState) : Op → Option HardState
 
 def lastHard (ops : List Op) : Option HardState := ops.foldl hardStep none
 
-theorem hard_step {s : St} (op : Op) (hok : OpOk s op) : (applyOp s op).hard = hardStep s.hard op := by
+theorem hard_step {s : St} (op : Op) (hok : OpOkG op) : (applyOp s op).hard = hardStep s.hard op := by
   cases op with
   | write items =>
-    have hv : ValidBatch (lastIdx s) items := by simpa [OpOk, Op.items] using hok
-    obtain ⟨s', f, hw, -, -, -, -, -, r, -⟩ := writeRaftEntry_valid hv
+    have hv : ValidBatchG items := by simpa [OpOkG, Op.items] using hok
+    obtain ⟨s', f, hw, -, -, -, -, r, -⟩ := writeRaftEntry_validG (s := s) hv
     simp [applyOp, step, hw, hardStep, r]
   | save hs ents =>
     cases he : ents.isEmpty with
@@ -867,9 +928,9 @@ theorem hard_step {s : St} (op : Op) (hok : OpOk s op) : (applyOp s op).hard = h
       simp only [applyOp, step, saveEntry, he, if_true, hardStep]
       by_cases hz : hs = ⟨0, 0, 0⟩ <;> simp [hz]
     | false =>
-      have hvb : ValidBatch (lastIdx s) (ents.map convertFromRaft) := by
-        simpa [OpOk, Op.items, he] using hok
-      obtain ⟨s', f, hw, -, -, -, -, -, r, -⟩ := writeRaftEntry_valid hvb
+      have hvb : ValidBatchG (ents.map convertFromRaft) := by
+        simpa [OpOkG, Op.items, he] using hok
+      obtain ⟨s', f, hw, -, -, -, -, r, -⟩ := writeRaftEntry_validG (s := s) hvb
       simp only [applyOp, step, saveEntry, he, hw, hardStep]
       by_cases hz : hs = ⟨0, 0, 0⟩ <;> simp [hz, r]
   | hard hs => rfl
@@ -886,6 +947,7 @@ theorem hard_step {s : St} (op : Op) (hok : OpOk s op) : (applyOp s op).hard = h
       · cases hr
   | clear => rfl
   | best b => rfl
+  | ccprog id st => rfl
   | reset hs =>
     cases hs with
     | none => rfl
@@ -894,12 +956,12 @@ theorem hard_step {s : St} (op : Op) (hok : OpOk s op) : (applyOp s op).hard = h
       simp only [applyOp, step, resetWAL, hardStep]
       cases hb : (clearWAL s).best <;> rfl
 
-theorem hard_run (ops : List Op) : ValidFrom empty ops → (run empty ops).hard = lastHard ops := by
+theorem hard_run (ops : List Op) : ValidFromG ops → (run empty ops).hard = lastHard ops := by
   induction ops using snoc_induction with
   | nil => intro _; rfl
   | snoc l a ih =>
     intro hv
-    obtain ⟨hv1, hv2⟩ := (validFrom_snoc empty l a).mp hv
+    obtain ⟨hv1, hv2⟩ := (validFromG_snoc l a).mp hv
     rw [run_snoc, hard_step a hv2, ih hv1]
     simp [lastHard, List.foldl_append]
 
